@@ -8,7 +8,8 @@ import hashlib
 import io
 
 BASE_TIME = 1_700_000_000
-AUTHORS = ["V. Arnold", "Arnold Sh.", "Richard Feynman", "J. Morrison", "Norris, Chuck", "A Very Long Author Name Indeed"]
+AUTHORS = ["V. Arnold", "Nineteen Chars Name", "Richard Feynman", "Twenty Two Characters.", "Eighteen Chars Nam",
+           "A Very Long Author Name Indeed", "Seventeen Chars N", "J. Morrison", "Norris, Chuck", "Arnold Sh."]
 
 
 class Blob:
